@@ -2,7 +2,10 @@ module verifharness
 
 go 1.24.0
 
-require github.com/omec-project/upf-epc v0.0.0
+require (
+	github.com/omec-project/upf-epc v0.0.0
+	go.uber.org/zap v1.27.0
+)
 
 require (
 	github.com/Showmax/go-fqdn v1.0.0 // indirect
@@ -21,7 +24,6 @@ require (
 	github.com/prometheus/procfs v0.6.0 // indirect
 	github.com/wmnsk/go-pfcp v0.0.24 // indirect
 	go.uber.org/multierr v1.10.0 // indirect
-	go.uber.org/zap v1.27.0 // indirect
 	golang.org/x/net v0.38.0 // indirect
 	golang.org/x/sys v0.31.0 // indirect
 	golang.org/x/text v0.23.0 // indirect
